@@ -42,11 +42,11 @@ type ListPSCase struct {
 
 // TextLit is the body of a text statement.
 type TextLit struct {
-	Parts  []string   `json:"parts,omitempty"`
-	Type   string     `json:"type,omitempty"`
-	IsFmt  bool       `json:"isfmt,omitempty"`
-	Format string     `json:"format,omitempty"`
-	PS     *TextPS    `json:"ps,omitempty"`
+	Parts  []string `json:"parts,omitempty"`
+	Type   string   `json:"type,omitempty"`
+	IsFmt  bool     `json:"isfmt,omitempty"`
+	Format string   `json:"format,omitempty"`
+	PS     *TextPS  `json:"ps,omitempty"`
 }
 
 // TextPS is a poryswitch choosing a text.
